@@ -159,14 +159,12 @@ func (s *simplifier) visit(node Node) {
 			node.Parts = s.simplifyWord(node.Parts)
 		}
 	case *TestClause:
-		node.X = s.removeParensTest(node.X)
-		node.X = s.removeNegateTest(node.X)
+		node.X = s.simplifyTest(node.X, true)
 	case *ParenTest:
-		node.X = s.removeParensTest(node.X)
-		node.X = s.removeNegateTest(node.X)
+		node.X = s.simplifyTest(node.X, true)
 	case *BinaryTest:
 		node.X = s.unquoteParams(node.X)
-		node.X = s.removeNegateTest(node.X)
+		node.X = s.simplifyTest(node.X, false)
 		if node.Op == TsMatchShort {
 			s.modified = true
 			node.Op = TsMatch
@@ -179,7 +177,7 @@ func (s *simplifier) visit(node Node) {
 		default:
 			node.Y = s.unquoteParams(node.Y)
 		}
-		node.Y = s.removeNegateTest(node.Y)
+		node.Y = s.simplifyTest(node.Y, false)
 	case *UnaryTest:
 		node.X = s.unquoteParams(node.X)
 	}
@@ -317,6 +315,22 @@ func (s *simplifier) removeParensTest(x TestExpr) TestExpr {
 	}
 }
 
+// simplifyTest removes useless parentheses (at the top of a test or of a parenthesised test)
+// and merges negations until nothing changes, so that one call of Simplify is enough.
+func (s *simplifier) simplifyTest(x TestExpr, parens bool) TestExpr {
+	for {
+		y := x
+		if parens {
+			y = s.removeParensTest(y)
+		}
+		y = s.removeNegateTest(y)
+		if y == x {
+			return x
+		}
+		x = y
+	}
+}
+
 func (s *simplifier) removeNegateTest(x TestExpr) TestExpr {
 	u, _ := x.(*UnaryTest)
 	if u == nil || u.Op != TsNot {
@@ -339,7 +353,7 @@ func (s *simplifier) removeNegateTest(x TestExpr) TestExpr {
 		}
 	case *BinaryTest:
 		switch y.Op {
-		case TsMatch:
+		case TsMatch, TsMatchShort:
 			y.Op = TsNoMatch
 			s.modified = true
 			return y
